@@ -90,7 +90,7 @@ pub fn run(c: &Value) -> CaseResult {
             let mut u = a.clone(); u.union_with(&b);
             chk("union_with", view(&u), sa.union(&sb).cloned().collect())?;
             if a.len() != sa.len() || a.is_empty() != sa.is_empty() { return Err(format!("VarSet len/is_empty: {} / {}, the set has {} elements", a.len(), a.is_empty(), sa.len())); }
-            for x in 0..10u64 { if a.contains(VarLabel::new(x)) != sa.contains(&x) { return Err(format!("VarSet contains({x}) wrong")); } }
+            for x in 0..c["upto"].as_u64().unwrap_or(10) { if a.contains(VarLabel::new(x)) != sa.contains(&x) { return Err(format!("VarSet contains({x}) wrong")); } }
             Ok(())
         }
         "pm_build" => {
@@ -165,6 +165,36 @@ pub fn candidates(seed: u64) -> Vec<Value> {
         for l in [1i64, -1, 2, -2, 3, -3] { out.push(json!({"case": "cnf_condition", "cnf": cnf, "lit": l, "nvars": 3})); }
         out.push(json!({"case": "cnf_wmc", "cnf": cnf, "weights": [[1, 1], [1, 1], [1, 1]]}));
         out.push(json!({"case": "cnf_wmc", "cnf": cnf, "weights": [[2, 3], [5, 7], [11, 13]]}));
+    }
+    // sizes beyond the small cases: clauses of 9-12 literals over 10-12 variables (complementary and repeated literals
+    // included) for condition / wmc / eval, and labels beyond 64 for the set and model bookkeeping
+    {
+        let mut s2 = seed.wrapping_add(777001);
+        let mut nx2 = |n: u64| { s2 = s2.wrapping_mul(6364136223846793005).wrapping_add(1442695040888963407); (s2 >> 33) % n };
+        for _ in 0..12 {
+            let nv = 10 + nx2(3);
+            let mut cnf: Vec<Vec<i64>> = vec![];
+            for _ in 0..(1 + nx2(3)) {
+                let w = 9 + nx2(4);
+                let mut cl: Vec<i64> = (0..w).map(|_| { let v = 1 + nx2(nv) as i64; if nx2(2) == 0 { v } else { -v } }).collect();
+                let v = 1 + nx2(nv) as i64; cl.push(v); cl.push(-v);     // a complementary pair
+                cnf.push(cl);
+            }
+            for _ in 0..nx2(3) { cnf.push((0..1 + nx2(3)).map(|_| { let v = 1 + nx2(nv) as i64; if nx2(2) == 0 { v } else { -v } }).collect()); }
+            cnf.push(vec![nv as i64]);
+            for l in 1..=nv as i64 { out.push(json!({"case": "cnf_condition", "cnf": cnf, "lit": l, "nvars": nv})); out.push(json!({"case": "cnf_condition", "cnf": cnf, "lit": -l, "nvars": nv})); }
+            let w: Vec<Vec<u64>> = (0..nv).map(|_| vec![nx2(50), nx2(50)]).collect();
+            out.push(json!({"case": "cnf_wmc", "cnf": cnf, "weights": w}));
+        }
+        for _ in 0..40 {
+            let a: Vec<u64> = (0..nx2(8)).map(|_| nx2(140)).collect();
+            let b: Vec<u64> = (0..nx2(8)).map(|_| nx2(140)).collect();
+            out.push(json!({"case": "varset_ops", "a": a, "b": b, "upto": 140}));
+            let opt = |k: u64| match k { 0 | 1 | 2 => Value::Null, 3 => json!(true), _ => json!(false) };
+            let pa: Vec<Value> = (0..70).map(|_| opt(nx2(5))).collect();
+            let pb: Vec<Value> = (0..70).map(|_| opt(nx2(5))).collect();
+            out.push(json!({"case": "pm_build", "a": pa, "b": pb}));
+        }
     }
     let mut s = seed.wrapping_add(4242);
     let mut nx = |n: u64| { s = s.wrapping_mul(6364136223846793005).wrapping_add(1442695040888963407); (s >> 33) % n };
